@@ -75,7 +75,7 @@ GoodRequest(R) == DistinctOwners(R) /\ PrioOK(intended, R)
 
 \* validity of the resulting configuration (C04); the core universes carry no constraint
 Valid(cfg) == ValidCfg(cfg, Disabled)
-ResultCfg(I2, d) == ResultOf(I2, d, ever)
+ResultCfg(I2, d, R) == ResultOf(I2, d, ever, Orphaned(intended, R))
 
 Init == /\ intended = {}
         /\ device \in InitDevice
@@ -111,7 +111,7 @@ Done(ret) == /\ Answer(pend.id, "set", ret)
 
 TxReject ==
     /\ pend.phase = "begun"
-    /\ ~Valid(ResultCfg(NewStore(intended, pend.req), device))
+    /\ ~Valid(ResultCfg(NewStore(intended, pend.req), device, pend.req))
     /\ Done("invalid") /\ slot' = NoSlot
     /\ UNCHANGED <<intended, running, device, ever, dryPred, lastFail>>
 
@@ -124,7 +124,7 @@ NextDevice(R) ==
 
 TxDryRun ==
     /\ pend.phase = "begun" /\ pend.dry
-    /\ Valid(ResultCfg(NewStore(intended, pend.req), device))
+    /\ Valid(ResultCfg(NewStore(intended, pend.req), device, pend.req))
     /\ \E d2 \in NextDevice(pend.req) :
          dryPred' = [valid |-> TRUE, I |-> intended, d |-> device, req |-> pend.req, chg |-> MinimalChange(device, d2)]
     /\ Done("ok") /\ slot' = NoSlot
@@ -132,7 +132,7 @@ TxDryRun ==
 
 TxApply ==
     /\ pend.phase = "begun" /\ ~pend.dry /\ pend.fail = "none"
-    /\ Valid(ResultCfg(NewStore(intended, pend.req), device))
+    /\ Valid(ResultCfg(NewStore(intended, pend.req), device, pend.req))
     /\ \E d2 \in NextDevice(pend.req) :
          /\ device' = d2
          /\ pend' = [pend EXCEPT !.phase = "applied", !.chg = MinimalChange(device, d2)]
@@ -140,7 +140,7 @@ TxApply ==
 
 TxApplyFail ==
     /\ pend.phase = "begun" /\ ~pend.dry /\ pend.fail = "device"
-    /\ Valid(ResultCfg(NewStore(intended, pend.req), device))
+    /\ Valid(ResultCfg(NewStore(intended, pend.req), device, pend.req))
     /\ Done("error") /\ slot' = NoSlot
     /\ lastFail' = Failed(pend.req, pend.pre.I, pend.pre.d)
     /\ UNCHANGED <<intended, running, device, ever, dryPred>>
